@@ -17,8 +17,16 @@ func VerifC05Fanout() {
 	prefixes := []string{"/r/a/", "/r/ab", "/r/"}
 	nw := zzverif.Param("watches", 2)
 	chans := make([]<-chan []*proto.Event, nw)
+	starts := make([]uint64, nw)
 	for i := 0; i < nw; i++ {
-		ch, err := w.b.Watch(vCtx(), prefixes[i], 0)
+		if i == nw-1 {
+			// the last watch (the widest prefix) names a start revision inside the coming batch: the
+			// batch straddles it (0 = no start revision)
+			if c := zzverif.Choose("start", zzverif.Param("events", 4)+1); c > 0 {
+				starts[i] = uint64(100 + c)
+			}
+		}
+		ch, err := w.b.Watch(vCtx(), prefixes[i], starts[i])
 		zzverif.Assert(err == nil, "watch accepted")
 		chans[i] = ch
 	}
@@ -48,7 +56,7 @@ func VerifC05Fanout() {
 		zzverif.Assert(!closed, "watch stays open")
 		n := 0
 		for _, e := range all {
-			if !zzverif.HasPrefix(e.key, []byte(prefixes[i])) {
+			if !zzverif.HasPrefix(e.key, []byte(prefixes[i])) || e.rev < starts[i] {
 				continue
 			}
 			zzverif.Assert(n < len(got), "every matching change is delivered")
